@@ -26,10 +26,25 @@ package tracing
 
 // The broadcaster: one goroutine handles one message at a time, so every subscriber present during a
 // broadcast step receives the same trace, in list order, before the next trace is taken.
+// The subscriber list of a tracer: real, open, pairwise different channels; the tracer's own done channel is open until
+// its loop ends.  (That a subscriber never closes the channel it subscribed, and subscribes it only once, is the API's
+// precondition: assumed as an invariant of the subscription messages.)
+//@ spec func subsOK(t *tracer) bool =
+//@   t.done != nil && !closed(t.done) &&
+//@   (forall a int :: off(t.subscribers) <= a && a < off(t.subscribers) + len(t.subscribers) ==> at(t.subscribers, a) != nil && !closed(at(t.subscribers, a))) &&
+//@   (forall a int, b int :: off(t.subscribers) <= a && a < b && b < off(t.subscribers) + len(t.subscribers) ==> at(t.subscribers, a) != at(t.subscribers, b))
+
 //@ func (*tracer).run
 //@   prop C09 C07 C17
+//@   flag spawnpre
+//@   requires subsOK(t)
+//@   recvinv subscription: msg.channel != nil && !closed(msg.channel) &&
+//@             forall a int :: off(t.subscribers) <= a && a < off(t.subscribers) + len(t.subscribers) ==> at(t.subscribers, a) != msg.channel
 //@   ensures [done-closed-on-exit] isClose(ev(evlen - 1)) && evch(ev(evlen - 1)) == t.done
 //@   loop 1 for
+//@     invariant [done-stays-open] t.done != nil && !closed(t.done)
+//@     invariant [subscribers-stay-open] forall a int :: off(t.subscribers) <= a && a < off(t.subscribers) + len(t.subscribers) ==> at(t.subscribers, a) != nil && !closed(at(t.subscribers, a))
+//@     invariant [subscribers-stay-distinct] forall a int, b int :: off(t.subscribers) <= a && a < b && b < off(t.subscribers) + len(t.subscribers) ==> at(t.subscribers, a) != at(t.subscribers, b)
 //@     invariant t.traces == old(t.traces) && t.subscription == old(t.subscription) && t.unSubscription == old(t.unSubscription) &&
 //@               t.terminate == old(t.terminate) && t.done == old(t.done)
 //@     invariant [the-cancellation-case-is-armed-with-the-context-or-disarmed] cancelled == nil || cancelled == ctxdone(ctx)
@@ -66,10 +81,12 @@ package tracing
 //@         forall j int :: 0 <= j && j < old(len(t.subscribers)) && old(t.subscribers[j]) != m.channel ==>
 //@           exists k int :: 0 <= k && k < len(t.subscribers) && t.subscribers[k] == old(t.subscribers[j])
 //@   loop 2 range t.subscribers
+//@     invariant t.done != nil && !closed(t.done) && (forall a int :: off(t.subscribers) <= a && a < off(t.subscribers) + len(t.subscribers) ==> at(t.subscribers, a) != nil && !closed(at(t.subscribers, a)))
 //@     invariant pos == -1 && forall k int :: 0 <= k && k < i ==> t.subscribers[k] != unsch.channel
 //@     invariant t.traces == old(t.traces) && t.subscription == old(t.subscription) && t.unSubscription == old(t.unSubscription) &&
 //@               t.terminate == old(t.terminate) && t.done == old(t.done) && evlen == athead(1, evlen) + 1
 //@   loop 3 range t.subscribers
+//@     invariant t.done != nil && !closed(t.done) && (forall a int :: off(t.subscribers) <= a && a < off(t.subscribers) + len(t.subscribers) ==> at(t.subscribers, a) != nil && !closed(at(t.subscribers, a)))
 //@     invariant t.traces == old(t.traces) && t.subscription == old(t.subscription) && t.unSubscription == old(t.unSubscription) &&
 //@               t.terminate == old(t.terminate) && t.done == old(t.done) && t.subscribers == athead(1, t.subscribers)
 //@     invariant evlen == athead(1, evlen) + 1 + rk3
@@ -77,7 +94,9 @@ package tracing
 //@               isSend(ev(p)) && evch(ev(p)) == athead(1, t.subscribers[p - evlen - 1]) && evval(ev(p)) == iface(trace)
 //@     invariant preservedSince(1, "elems([]chan ITrace)")
 //@   loop 4 range t.subscribers
-//@     invariant t.done == old(t.done)
+//@     invariant t.done == old(t.done) && t.done != nil && !closed(t.done) && t.subscribers == athead(1, t.subscribers) && preservedSince(1, "elems([]chan ITrace)")
+//@     invariant forall a int :: off(t.subscribers) + rk4 <= a && a < off(t.subscribers) + len(t.subscribers) ==> at(t.subscribers, a) != nil && !closed(at(t.subscribers, a))
+//@     invariant forall a int, b int :: off(t.subscribers) <= a && a < b && b < off(t.subscribers) + len(t.subscribers) ==> at(t.subscribers, a) != at(t.subscribers, b)
 
 // Unwrap strips wrappers; it is a deterministic function of the trace (no events, no state).
 //@ func Unwrap
